@@ -1,4 +1,96 @@
-import PieModel.Graph.Model
+/-
+Property C10: under every sequence of node and edge insertions and removals the graph stays
+acyclic and its topological ranks form a bijection onto `1..n` with `rank(src) < rank(dst)` for
+every edge.  Adding an edge is rejected as a cycle exactly when the destination already reaches
+the source or both are the same node, and a rejected insertion leaves the graph as it was.
+
+Property statements only; the proofs are in `PieModel/Graph/*.lean`.
+-/
+import PieModel.Graph.AddEdgeInv
+
 namespace PieModel
-theorem C10_placeholder : (Dag.empty : Dag Nat Nat).last = 0 := rfl
+open Dag
+
+variable {N E : Type}
+
+/-- Every operation preserves the invariant. -/
+theorem C10_inv_step (g : Dag N E) (h : g.Inv) (op : Dag.GOp N E) : (g.step op).Inv := by
+  cases op with
+  | addNode d => exact inv_addNode h d
+  | addEdge s t d => exact inv_addEdge h s t d
+  | removeEdge s t => exact inv_removeEdge h s t
+  | removeOutgoing s => exact inv_removeOutgoing h s
+  | removeNode n => exact inv_removeNode h n
+  | setNodeData n d => exact inv_setNodeData h n d
+  | setEdgeData s t d => exact inv_setEdgeData h s t d
+
+/-- The invariant holds in every reachable graph. -/
+theorem C10_inv_reachable (ops : List (Dag.GOp N E)) : (Dag.run ops).Inv := by
+  have : ∀ (g : Dag N E), g.Inv → (ops.foldl Dag.step g).Inv := by
+    induction ops with
+    | nil => intro g h; exact h
+    | cons op ops ih => intro g h; exact ih _ (C10_inv_step g h op)
+  exact this _ inv_empty
+
+/-- Ranks are a bijection onto `1..n`. -/
+theorem C10_ranks_bijection (ops : List (Dag.GOp N E)) :
+    (Dag.run ops).ranks.Perm (List.range' 1 (Dag.run ops).nodes.length) :=
+  (C10_inv_reachable ops).ranks_perm
+
+/-- Every edge goes upward in rank. -/
+theorem C10_edges_upward (ops : List (Dag.GOp N E)) (s d : Nat) :
+    (Dag.run ops).HasEdge s d → (Dag.run ops).topoOf s < (Dag.run ops).topoOf d :=
+  (C10_inv_reachable ops).upward s d
+
+/-- The graph is acyclic. -/
+theorem C10_acyclic (ops : List (Dag.GOp N E)) (n : Nat) : ¬ (Dag.run ops).Reach n n :=
+  (C10_inv_reachable ops).acyclic n
+
+/-- `addEdge` reports a cycle exactly when the destination reaches the source or both coincide. -/
+theorem C10_addEdge_cycle_iff (g : Dag N E) (h : g.Inv) (s t : Nat) (d : E)
+    (hs : g.containsNode s) (ht : g.containsNode t) :
+    (g.addEdge s t d).2 = .error .cycle ↔ (s = t ∨ g.Reach t s) :=
+  addEdge_cycle_iff h s t d hs ht
+
+/-- A rejected insertion leaves the graph exactly as it was. -/
+theorem C10_addEdge_rejected_unchanged (g : Dag N E) (s t : Nat) (d : E) (e : GErr) :
+    (g.addEdge s t d).2 = .error e → (g.addEdge s t d).1 = g :=
+  addEdge_error_unchanged g s t d e
+
+/-- `addEdge` reports a missing node exactly when one of the endpoints is not live. -/
+theorem C10_addEdge_missing_iff (g : Dag N E) (s t : Nat) (d : E) :
+    (g.addEdge s t d).2 = .error .nodeMissing ↔
+      (g.containsNode s = false ∨ g.containsNode t = false) :=
+  addEdge_missing_iff g s t d
+
+/-! ### non-vacuity -/
+
+
+/-- Six nodes `0..5` with ranks `1..6`, edges `0 → 1` and `2 → 3`. -/
+def c10Sample : Dag Unit Unit :=
+  Dag.run [.addNode (), .addNode (), .addNode (), .addNode (), .addNode (), .addNode (),
+    .addEdge 0 1 (), .addEdge 2 3 ()]
+
+example : c10Sample.ids = [0, 1, 2, 3, 4, 5] ∧ c10Sample.ranks = [1, 2, 3, 4, 5, 6] := by decide
+
+/-- Inserting `3 → 0` (rank 4 → rank 1) succeeds and moves two nodes on each side:
+backward set `{2, 3}` gets ranks `1, 2`, forward set `{0, 1}` gets ranks `3, 4`. -/
+example :
+    (c10Sample.addEdge 3 0 ()).2 = .ok true ∧
+    (c10Sample.addEdge 3 0 ()).1.ranks = [3, 4, 1, 2, 5, 6] ∧
+    (c10Sample.addEdgeG3 3 0 ()).dfsForward 0 4 = some [1, 0] ∧
+    (c10Sample.addEdgeG3 3 0 ()).dfsBackward 3 [1, 0] 1 = [2, 3] :=
+  ⟨rfl, by decide, by decide, by decide⟩
+
+/-- With the path `0 → 1 → 2` (length 2), inserting `2 → 0` is rejected as a cycle and the graph
+is unchanged. -/
+def c10Path : Dag Unit Unit :=
+  Dag.run [.addNode (), .addNode (), .addNode (), .addNode (), .addNode (), .addNode (),
+    .addEdge 0 1 (), .addEdge 1 2 ()]
+
+example :
+    (c10Path.addEdge 2 0 ()).2 = .error .cycle ∧ (c10Path.addEdge 2 0 ()).1.ranks = c10Path.ranks ∧
+      c10Path.childrenOf 0 = [1] ∧ c10Path.childrenOf 1 = [2] ∧ c10Path.nodes.length = 6 :=
+  ⟨rfl, by decide, by decide, by decide, by decide⟩
+
 end PieModel
